@@ -111,6 +111,18 @@ func (b *Builder) intern(t *Term) *Term {
 
 func (b *Builder) NumTerms() int { return b.n }
 
+// Apps returns all uninterpreted-function applications and free constants built so far.
+func (b *Builder) Apps() []*Term {
+	var out []*Term
+	for _, t := range b.tab {
+		if t.Op == "app" || t.Op == "var" {
+			out = append(out, t)
+		}
+	}
+	sort.Slice(out, func(i, j int) bool { return out[i].ID < out[j].ID })
+	return out
+}
+
 // ---- constants and variables
 
 func (b *Builder) Bool(v bool) *Term {
